@@ -62,6 +62,19 @@ func isAutoAssertStmt(stmt ast.Stmt) bool {
 	return false
 }
 
+// breakIfNotStmt returns `if !cond { break }`.
+func breakIfNotStmt(cond ast.Expr) ast.Stmt {
+	switch cond.(type) {
+	case *ast.Ident, *ast.CallExpr, *ast.SelectorExpr, *ast.IndexExpr, *ast.ParenExpr:
+	default:
+		cond = &ast.ParenExpr{X: cond}
+	}
+	return &ast.IfStmt{
+		Cond: &ast.UnaryExpr{Op: token.NOT, X: cond},
+		Body: &ast.BlockStmt{List: []ast.Stmt{&ast.BranchStmt{Tok: token.BREAK}}},
+	}
+}
+
 // TypeAssert func
 func (p *CodeBuilder) TypeAssert(typ types.Type, lhs int, src ...ast.Node) *CodeBuilder {
 	if debugInstr {
